@@ -21,7 +21,7 @@ ASSUMPTIONS = [
     "the relative-reduction premise is checked (with <=) only when a recording callback supplies the previous iterate's value",
     "reference optimum for placing reachable/unreachable targets comes from scipy's L-BFGS-B on the same problem",
 ]
-FAMS = ("qp", "qp_quartic", "rosenbrock", "exp_wall", "rastrigin", "styblinski_tang", "beale", "sphere", "quartic", "log_barrier")
+FAMS = ("qp", "qp_quartic", "rosenbrock", "exp_wall", "rastrigin", "styblinski_tang", "beale", "sphere", "quartic", "log_barrier", "qp_inf_region", "qp_nan_region")
 
 
 def floors(tier):
